@@ -26,6 +26,7 @@ import (
 
 	"github.com/EliCDavis/polyform/formats/obj"
 	"github.com/EliCDavis/polyform/modeling"
+	"github.com/EliCDavis/vector/vector2"
 	"github.com/EliCDavis/vector/vector3"
 	"pgregory.net/rapid"
 
@@ -1271,6 +1272,107 @@ func runHuge(c HugeCase, o *vh.Obs) *vh.Failure {
 	return nil
 }
 
+// ---------------------------------------------------------------- count sweep
+
+// SweepCase: one mesh with exactly N triangles (a strip over N+2 shared vertices, float32-exact
+// positions; normals and uvs for even N, two material ranges for N divisible by 3) written and read
+// back; every N up to a bound is tried once.
+type SweepCase struct{ N int }
+
+func sweepCases() []SweepCase {
+	n := 2500
+	if vh.Tier == "thorough" {
+		n = 25000
+	}
+	out := make([]SweepCase, 0, n)
+	for k := 1; k <= n; k++ {
+		out = append(out, SweepCase{N: k})
+	}
+	return out
+}
+
+func sweepPos(i int) vector3.Float64 {
+	return vector3.New(float64(i%61)/8, float64((i/61)%61)/8-3, float64(i/3721)/8+float64(i%7)/64)
+}
+
+func runSweep(c SweepCase, o *vh.Obs) *vh.Failure {
+	if c.N < 1 || c.N > 200000 {
+		o.Class("out-of-domain")
+		return nil
+	}
+	o.NonTrivial()
+	o.Class("sweep/triangles")
+	nv := c.N + 2
+	idx := make([]int, 0, 3*c.N)
+	for t := 0; t < c.N; t++ {
+		if t%2 == 0 {
+			idx = append(idx, t, t+1, t+2)
+		} else {
+			idx = append(idx, t+1, t, t+2)
+		}
+	}
+	pos := make([]vector3.Float64, nv)
+	for i := range pos {
+		pos[i] = sweepPos(i)
+	}
+	src := modeling.NewTriangleMesh(idx).SetFloat3Attribute(modeling.PositionAttribute, pos)
+	full := c.N%2 == 0
+	uvOf := func(i int) vector2.Float64 { return vector2.New(float64(i%9)/8, float64(i%17)/16) }
+	nrOf := func(i int) vector3.Float64 { return vector3.New(float64(i%3)-1, float64(i%5)/4, 0.5) }
+	if full {
+		nr, uv := make([]vector3.Float64, nv), make([]vector2.Float64, nv)
+		for i := range nr {
+			nr[i], uv[i] = nrOf(i), uvOf(i)
+		}
+		src = src.SetFloat3Attribute(modeling.NormalAttribute, nr).SetFloat2Attribute(modeling.TexCoordAttribute, uv)
+	}
+	if c.N%3 == 0 {
+		src = src.SetMaterials([]modeling.MeshMaterial{{PrimitiveCount: c.N / 3, Material: gen.MaterialPool[0]}, {PrimitiveCount: c.N - c.N/3, Material: gen.MaterialPool[1]}})
+	}
+	buf := &bytes.Buffer{}
+	if err := obj.WriteMesh(src, "", buf); err != nil {
+		return vh.Failf("sweep/write-error", "writing %d triangles: %v", c.N, err)
+	}
+	back, _, err := obj.ReadMesh(bytes.NewReader(buf.Bytes()))
+	if err != nil {
+		return vh.Failf("sweep/read-error", "reading back %d triangles (%d bytes): %v", c.N, buf.Len(), err)
+	}
+	total := 0
+	k := 0
+	for _, part := range back {
+		m := part.Mesh
+		if m.Topology() != modeling.TriangleTopology || !m.HasFloat3Attribute(modeling.PositionAttribute) {
+			return vh.Failf("sweep/primitives", "%d triangles: a returned mesh has topology %v, float3 attributes %v", c.N, m.Topology(), m.Float3Attributes())
+		}
+		if m.HasFloat3Attribute(modeling.NormalAttribute) != full || m.HasFloat2Attribute(modeling.TexCoordAttribute) != full {
+			return vh.Failf("sweep/attributes", "%d triangles: normals/uvs written %v, read %v/%v", c.N, full, m.HasFloat3Attribute(modeling.NormalAttribute), m.HasFloat2Attribute(modeling.TexCoordAttribute))
+		}
+		total += m.PrimitiveCount()
+		gp, gi := m.Float3Attribute(modeling.PositionAttribute), m.Indices()
+		for j := 0; j < gi.Len() && k < len(idx); j, k = j+1, k+1 {
+			v := gi.At(j)
+			if v < 0 || v >= gp.Len() {
+				return vh.Failf("sweep/index-out-of-range", "corner %d references vertex %d of %d", k, v, gp.Len())
+			}
+			if gp.At(v) != sweepPos(idx[k]) {
+				return vh.Failf("sweep/corner-value", "%d triangles: corner %d was written at %v and comes back at %v", c.N, k, sweepPos(idx[k]), gp.At(v))
+			}
+			if full {
+				if n := m.Float3Attribute(modeling.NormalAttribute).At(v); n != nrOf(idx[k]) {
+					return vh.Failf("sweep/corner-normal", "%d triangles: corner %d carries normal %v, written %v", c.N, k, n, nrOf(idx[k]))
+				}
+				if uv := m.Float2Attribute(modeling.TexCoordAttribute).At(v); uv != uvOf(idx[k]) {
+					return vh.Failf("sweep/corner-uv", "%d triangles: corner %d carries uv %v, written %v", c.N, k, uv, uvOf(idx[k]))
+				}
+			}
+		}
+	}
+	if total != c.N || k != len(idx) {
+		return vh.Failf("sweep/primitives", "wrote %d triangles, read %d in %d meshes", c.N, total, len(back))
+	}
+	return nil
+}
+
 func TestC05(t *testing.T) {
 	vh.Drive(t, vh.Spec[WRCase]{Name: "write-read", Quick: 80000, Thorough: 2400000, Gen: genWR, Run: runWR})
 	vh.Drive(t, vh.Spec[RWCase]{Name: "read-write", Quick: 100000, Thorough: 3000000, Gen: genRW, Run: runRW})
@@ -1278,6 +1380,7 @@ func TestC05(t *testing.T) {
 	vh.Drive(t, vh.Spec[vh.Conc[RWCase]]{Name: "concurrent-readers", Quick: 2000, Thorough: 60000, Gen: vh.GenConc(genRW), Run: vh.RunConc(runRW), Repeat: 20})
 	// ~2.5 GB and ~10 s: a single case
 	vh.Enumerate(t, vh.Spec[HugeCase]{Name: "huge-mesh", Run: runHuge, Deadline: 10 * time.Minute}, hugeCases())
+	vh.Enumerate(t, vh.Spec[SweepCase]{Name: "count-sweep", Run: runSweep}, sweepCases())
 }
 
 func FuzzC05ReadWrite(f *testing.F) {
